@@ -83,6 +83,7 @@ func init() {
 				MaxBulk: 100, Keys: []int{12, 64, 400},
 				ValW:    valAll, MaxDepth: 2, MaxElems: 5, AcqW: [3]int{8, 1, 1},
 				DigRootsPct: 25, // "any hash distribution": colliding digests too (limit stays 255)
+				HipGroupsPct: 25, // ... and genuine first-level collisions of the default digester
 			})
 		},
 		Or:   func(*Case) Oracles { return Oracles{CmpEvery: 1, CheckHandles: true} },
@@ -112,6 +113,7 @@ func init() {
 				MaxBulk: 80, Keys: []int{12, 64, 300},
 				ValW:    val, MaxDepth: 3, MaxElems: 5, AcqW: [3]int{7, 2, 1}, Keep: keep,
 				DigRootsPct: 30, // root maps with colliding digests: inline / external collision groups
+				HipGroupsPct: 20,
 			})
 		}
 	}
